@@ -23,6 +23,21 @@ def model_line(machine, data, exec_arn, oracle, fuel=400, max_data=None):
     return line if max_data is None else line + "\t%d" % max_data
 
 
+def settled_model(chk, m, machine, data, exec_arn, oracle, requests, max_data=None):
+    """canonical runs in which a fan-out attempt failed: the recording is repaired for the model's phantom requests
+    (`enginerun.settle_oracle`) and the model asked again"""
+    if not m.get("fanFail"):
+        return m
+    def rerun(orc):
+        a = common.driver([model_line(machine, data, exec_arn, orc, max_data=max_data)])[0].split("\t")
+        return json.loads(a[1]) if a[0] == "ok" else None
+    m, n = enginerun.settle_oracle(m, oracle, requests, rerun)
+    if n:
+        chk.dist("oracle.runs_with_phantom_requests")
+        chk.dist("oracle.phantom_requests", n)
+    return m
+
+
 def impl_view(r):
     return {"status": r.status, "output": enginerun.mask_cause(r.output) if r.status == "SUCCEEDED" else None,
             "error": r.error if r.status == "FAILED" else None}
@@ -105,7 +120,10 @@ def timed_dist(chk, case, m, prefix="timed"):
 
 
 def run_one(case):
-    r = enginerun.run_case(case["machine"], case["input"], case["plans"], max_data=case.get("max_data"))
+    import framecmp
+    rec = framecmp.Recorder()       # the frames of the engine connection, step by step (C03.frames_match_reference)
+    r = enginerun.run_case(case["machine"], case["input"], case["plans"], max_data=case.get("max_data"), monitor=rec)
+    r.frames = rec
     try:
         return r
     finally:
@@ -269,6 +287,7 @@ def run(chk):
             chk.dist("model." + m["status"])
             chk.count(key, False)
             continue
+        m = settled_model(chk, m, c["machine"], c["input"], r.exec_arn, r.plans.oracle(), r.requests, c.get("max_data"))
         nontrivial = f["states"] >= 2 or f["depth"] > 0 or m["status"] == "FAILED"
         chk.count(key, nontrivial)
         for t, k in f["types"].items():
@@ -297,7 +316,7 @@ def run(chk):
             # the Cause text is outside every property (and masked here), so the model cannot tell the verdict
             chk.dist("smalllimit.cause_text_decides.not_compared")
             continue
-        if enginerun.oracle_order_ambiguous(m):
+        if enginerun.oracle_order_ambiguous(m, r.requests, True):
             # concurrent branches put the same question to the same worker at different instants: which of them gets the
             # worker's n-th answer is the arrival order, which the (branch by branch) reference semantics does not have
             chk.dist("oracle_order.not_compared")
@@ -322,10 +341,10 @@ def run(chk):
         # the log of the reference semantics
         timed_dist(chk, c, m)
         mode, hp, nev = enginerun.compare_history(c["machine"], m, r.history, len(r.requests), timed=True,
-                                                  request_instants=[q["t"] for q in r.requests])
+                                                  request_instants=[q["t"] for q in r.requests], requests=r.requests)
         chk.dist("history.%s" % mode)
         chk.dist("history.%s.events" % mode, nev)
-        nmode, np_ = enginerun.compare_notifications(m, [n["body"]["detail"] for n in r.notifications], c["input"], timed=True)
+        nmode, np_ = enginerun.compare_notifications(m, [n["body"]["detail"] for n in r.notifications], c["input"], timed=True, requests=r.requests)
         chk.dist("notifications.%s" % nmode)
         hp = hp + np_
         if hp:
@@ -333,6 +352,18 @@ def run(chk):
                        law="the execution history (every event: type, name, input / output / error, ids 1..n), the status "
                            "notifications and the number of task requests are those the reference semantics predicts",
                        classify=classify)
+            continue
+        # --- the broker frames of every handler step against the steps the reference semantics predicts
+        import framecmp
+        fmode, fp, nst = framecmp.compare(m, r.frames.steps, r.frames.start, framecmp.fan_entered(c["machine"], m))
+        chk.dist("frames.%s" % fmode)
+        chk.dist("frames.%s.steps" % fmode, nst)
+        if fp:
+            chk.report("impl-differs-from-spec", case, impl={"frames": fp, "mode": fmode},
+                       model={"fanFail": m.get("fanFail"), "tieJoin": m.get("tieJoin"), "late": m.get("late")},
+                       law="C03.frames_match_reference: the broker frames of every handler step (deliveries, publications, "
+                           "acknowledgements, with the messages they concern, at their instants) are those the reference "
+                           "semantics predicts", classify=classify)
             continue
         if m["failState"] and (r.cause != m["cause"]):
             chk.report("impl-differs-from-spec", case, impl={"cause": r.cause}, model={"cause": m["cause"]},
@@ -369,6 +400,9 @@ def replay(chk, path):
     print("limit:", c.get("max_data"), "refused:", r.refusals)
     print("impl :", cj(impl_view(r)), "cause:", r.cause, "quiescent:", r.quiescent, "errors:", r.errors[:1])
     print("model:", a)
+    if a.startswith("ok\t"):
+        m2 = settled_model(chk, json.loads(a.split("\t")[1]), c["machine"], c["input"], r.exec_arn, r.plans.oracle(), r.requests, c.get("max_data"))
+        print("model after repairing the recording for phantom requests:", cj({k: v for k, v in m2.items() if k not in ("history", "log")}))
     for h in (r.history or []):
         print("   ", h["id"], h["type"])
     return 0
